@@ -31,10 +31,11 @@ def duplicate_packing_known(dups, mon=None):
     reduce events (one of them limited, or an epsilon production) - and, when
     the GSS monitor is given, every revisit of this parse concerned a head the
     actor had already processed (the recorded mechanism; a head revisited while
-    it still waits for the actor reduces twice for another reason)."""
+    it still waits for the actor reduces twice for another reason) and whose
+    reduction paths do pass through the node that got the new link."""
     if not dups:
         return None
-    if mon is not None and mon.c.get("revisit_before_actor", 0):
+    if mon is not None and (mon.c.get("revisit_before_actor", 0) or mon.c.get("revisit_without_path_to_the_new_link", 0)):
         return None
     if all(d["attributed"] for d in dups):
         return "KF-C03-1"
